@@ -271,7 +271,11 @@ CLAIMED = {
         "group's pieces are one line per member, each starting with the indentation piece of its depth, which renders to "
         "(depth-1) x tab spaces or depth-1 tabs. Tied to /repo by byte-exact comparison of config_write output on "
         "generated trees under ~30 option vectors per tree, and a model-free oracle tokenising every variant with the "
-        "documented tokenizer and measuring indentation.",
+        "documented tokenizer and measuring indentation."
+        " Through the parser (OptRead.v): for two configurations with the same tree, default format, float precision and "
+        "notation and ANY other output settings, both written texts are read back and the re-read trees are the same "
+        "(C19_options_invisible); precision / notation change the float values read back - each the strtod of its rendering "
+        "- and nothing else (C19_precision_changes_floats_only).",
    note="The statement is at the level of the writer's pieces; that the scanner splits the written text into exactly "
         "these pieces is the lexing half of C01. Floats are rendered by an exact printf model (FloatDec.v) validated "
         "against glibc by this correspondence. Tab widths above 15 are clamped by the setter (C05).",
@@ -290,7 +294,11 @@ CLAIMED = {
         "(lexemes longer than the buffer included) and every way the stream cuts its data, one call of the buffered matcher "
         "returns exactly flex_match on the remaining input; C20_inputs_agree: with the compiled tables and the buffer sizes "
         "of gen/Consts.v, a stream, another stream over the same bytes and the string give the same token sequence; "
-        "C20_chunked_is_buffered links (a) and (b). config_read_file on a regular file is config_read on its bytes with the "
+        "C20_chunked_is_buffered links (a) and (b). (c) The whole scanner, include machine and reader over such buffers "
+        "(LexStream.v): with the top-level input and every included file read through a flex buffer fed by a stream that "
+        "delivers its data in any pieces, the token stream equals lex_top's - tokens with lines, files, errors, events - "
+        "(C20_lex_top), hence C20_config_read / C20_config_read_file: config_read of a string, of a stream however it "
+        "delivers its data, and config_read_file give the same rd_result (tree, outcome, error fields, events). config_read_file on a regular file is config_read on its bytes with the "
         "file name recorded. Corners the proof exposed: YY_READ_BUF_SIZE >= 1, a refilled buffer of size >= 1. Not "
         "modelled: interactive buffers, the ferror/EINTR path, the int-overflow branch of the growth (2^30 bytes), buffer "
         "switching for includes (Lexer.v gives each file its own buffer); the skeleton model is a hand transcription of "
@@ -390,7 +398,9 @@ CLAIMED = {
         "recursive-descent model - outcome, error kind, tree, error position, tokens read - within 4*length+1 steps; so "
         "C02_lalr_accept_iff: the compiled tables accept exactly the derivable, semantically valid token lists; "
         "C02_lalr_total; C02_lalr_no_error_recovery; C02_lalr_agrees_bounded is the same agreement evaluated on all "
-        "204205 sequences up to length 4 (a bounded regression test, not the proof). What remains a correspondence "
+        "204205 sequences up to length 4 (a bounded regression test, not the proof); C02_read_lalr_eq: config_read with the "
+        "table-driven engine in place of the recursive-descent model is the same function in every field of its result, so "
+        "every read-level theorem holds of the reader over the compiled tables. What remains a correspondence "
         "matter is that the 60 lines of yyparse's control flow are as LalrEngine.v transcribes them and that each classified "
         "action text means what act_name / act_open / act_scalar do: tied on every run by exhaustive enumeration of all viable token-kind prefixes (to length 5 quick / 7 thorough) with every one-token "
         "invalid extension, in several concrete spellings, overrides off/on, against the real library and against a "
